@@ -470,7 +470,10 @@ class H(explore.Harness):
         generic = tuple(_c.canon(c, depth=2, skip=("_char_cache", "_loop", "_async_zeroconf_instance", "pairings", "aliases", "discoveries", "transports", "_tasks")) for c in self.ctrls.values())
         model = (tuple(sorted(getattr(self, "started", {}).items())), tuple(t.done() for t in getattr(self, "start_tasks", [])), getattr(self, "pairing_shut", False), tuple(sorted(self.may_find)), tuple(sorted((k, v % 3) for k, v in self.nadv.items())), tuple(sorted((k, tuple(sorted(v.items()))) for k, v in self.last_adv.items())), tuple(sorted(self.zc_cache)),
                  tuple(sorted((n, round(d[0] - self.loop.time(), 6)) for n, d in self.model_resolve.items())))
-        return (model, ws, timers, tuple(sorted(self.discovered)), regs, len(self.loop._ready), self.preempt, generic, tuple(sorted(k for c in self.ctrls.values() for k in c.discoveries)))
+        conns = tuple((pid, getattr(getattr(pr, "connection", None), "_reconnect_future", None) is not None and pr.connection._reconnect_future.done(), getattr(getattr(pr, "connection", None), "closing", None))
+                      for c in self.ctrls.values() for pid, pr in sorted(c.pairings.items()))
+        return (model, ws, timers, tuple(sorted(self.discovered)), regs, len(self.loop._ready), self.preempt, generic, tuple(sorted(k for c in self.ctrls.values() for k in c.discoveries)),
+                _c.tasks_sig(self.loop), conns, len(self.net.attempts), len(self.net.pending()))
 
     def outcome(self):
         def st(w):
